@@ -5,9 +5,10 @@ import Proofs.C04Gen
 Model: `GoawkModel.C04` (one function per level of `parser/parser.go`, open recursion, fuel = #tokens), the POSIX table as
 data (`BOp.prec`, `BOp.assoc`, `Expr.prec`), `renderMin` (only the parentheses the table requires), `renderFull`, `strip`.
 Language of the theorems (`wfA`): numbers, strings, variables, grouping, `^`, unary `- + !`, `* / %`, `+ -`, concatenation
-(with its start-token rule), relational, `~ !~`, `in`, `&&`, `||`, `?:`, assignment to a variable; both the plain
-(`pc = false`) and the print-argument (`pc = true`) context. Pre/post `++ --`, `$`, indexing and the getline forms are in
-the executable model (validated by correspondence) but have no round-trip theorem yet: `same_grouping_full`. -/
+(with its start-token rule), relational, `~ !~`, `in`, `&&`, `||`, `?:`, assignment to any lvalue, pre/post `++ --`, `$`
+(with the `$$x++ = $($x++)` rule: `renderMin` writes `$($x)++`), `a[i]`; both the plain (`pc = false`) and the
+print-argument (`pc = true`) context. Only the getline forms inside larger expressions are outside `wfA`
+(`same_grouping_full`); `c | getline` at the end is `pipe_getline_looser_than_concat`. -/
 namespace GoawkModel.C04
 
 /-- Writing a tree with every sub-expression parenthesised parses back to the tree. -/
@@ -65,9 +66,10 @@ theorem pipe_getline_looser_than_concat (a b : Expr) (rest : List Tok) (ha : wfA
     (h.1 3 (by simp [topLevel, Expr.prec, BOp.prec])) hf]
   simp only [stripRes, strip, h.2]
 
-/-- The full statement of the property over the model's whole expression language (`wfFull`: additionally pre/post
-    `++ --`, `$` with the `$$x++ = $($x++)` rule, `a[i]`, the getline forms, any lvalue as assignment target). Not proved:
-    `same_grouping_partial` covers `wfA`; the rest is checked by the implementation-side oracle and model correspondence. -/
+/-- The full statement of the property over the model's whole expression language (`wfFull` = `wfA` plus the getline
+    forms `getline`, `getline lv`, `getline < f`, `getline lv < f`, `cmd | getline [lv]` as operands). Not proved:
+    `same_grouping_partial` covers `wfA`; getline operands are checked by the implementation-side oracle and by model
+    correspondence. -/
 def same_grouping_full : Prop :=
   ∀ (e : Expr) (pc : Bool) (rest : List Tok), wfFull e = true → Follow pc rest →
     stripRes (parseExpr pc (renderMin pc e ++ rest)) = .ok (e, rest) ∧
@@ -102,6 +104,12 @@ example : wfA (.binary .concat (.var 0) (.unary .neg (.inArr (.binary .match_ (.
 example : canon false 1 (.binary .concat (.binary .concat (.num 1) (.num 2)) (.group (.unary .neg (.num 3)))) = true := by decide
 example : parseExpr false [.num 1, .num 2, .pipe, .getline, .rbrace] =
     .ok (.getline (.binary .concat (.num 1) (.num 2)) .none .none, [.rbrace]) := by rfl
+/-- `a[1] += $$x0++` (written `$($x0)++` by `renderMin`), `++$x1 ^ - x2--` -/
+example : wfA (.assign .add (.index 11 (.num 1)) (.incr false false (.field (.field (.var 0))))) = true := by decide
+example : wfA (.binary .pow (.incr true false (.field (.var 1))) (.unary .neg (.incr false true (.var 2)))) = true := by decide
+example : canon false 1 (.incr false false (.field (.group (.field (.var 0))))) = true := by decide
+example : parseExpr false [.dollar, .dollar, .name 0, .incr, .rbrace] =
+    .ok (.field (.incr false false (.field (.var 0))), [.rbrace]) := by rfl
 example : isRedirect (.cmp .gt) = true ∧ isRedirect .pipe = true ∧ isRedirect .append = true := by decide
 /-- the theorems are not about an always-failing or always-same-answer parser: `1 - 2 - 3` groups to the left, `2 ^ 3 ^ 4` to the right -/
 example : parseExpr false [.num 1, .sub, .num 2, .sub, .num 3, .rbrace] =
